@@ -22,6 +22,7 @@ man = {
          "kind_free_text": "the four bundled base clients driven directly with generated variables / responses / frame scripts"},
         {"name": "schemagen", "path": "vf/props/c16.py", "serves_properties": ["C16"], "kind_free_text": "ariadne_codegen.main.graphql_schema on generated decorated schemas, generated module executed with runpy"},
         {"name": "names", "path": "vf/props/c18.py", "serves_properties": ["C18"], "kind_free_text": "process_name laws by enumeration + two-name scope projects through the e2e engine"},
+        {"name": "builder", "path": "vf/props/c14.py", "serves_properties": ["C14"], "kind_free_text": "intent trees realised through the generated custom_fields / custom_queries builder classes, histories on one imported package, fresh-process differential"},
         {"name": "cli", "path": "vf/props/c17.py", "serves_properties": ["C10","C17","C19"],
          "kind_free_text": "subprocess / CliRunner runs of the command with generated projects, hash seeds, histories"},
     ],
